@@ -113,6 +113,12 @@ def eval (line : String) : Option String := do
       | .verdict v => pure (verdictS v)
     | _ => none
 
+/-- end-to-end stages observe only issued / refused: `cmp=class` collapses the verdict to that -/
+def classOnly (line out : String) : String :=
+  if (fields line).contains "cmp=class" then
+    if out.startsWith "deny" then "deny" else out
+  else out
+
 end C04
 
-def main : IO Unit := Verif.lineLoop fun l => (C04.eval l).getD "parse-error"
+def main : IO Unit := Verif.lineLoop fun l => C04.classOnly l ((C04.eval l).getD "parse-error")
